@@ -154,7 +154,7 @@ end
 /-! ### shape rows -/
 
 def showKind : ArgKind → String
-  | .str => "str" | .sds => "sds" | .int => "int" | .u64 => "u64" | .flt => "flt" | .usz => "usz" | .kw => "kw" | .u32 => "u32"
+  | .str => "str" | .sds => "sds" | .int => "int" | .u64 => "u64" | .flt => "flt" | .usz => "usz" | .kw => "kw" | .u32 => "u32" | .pos => "pos"
 
 def showArg (a : Arg) : String :=
   match a.onErr with
